@@ -127,6 +127,14 @@ def extra(rng, tier):
             pkts = []
             for _j in range(5):
                 pkts += defgen.fit_packet(d, defgen.rnd_packet(rng, rng.randrange(1, 30)))[:1]
+            if pkts and rng.random() < 0.4:
+                # a packet cut short inside its fields (length field adjusted, so it is framed): its decoding may raise and end THIS
+                # generator; the others, and generators made afterwards, must not notice
+                j = rng.randrange(len(pkts))
+                body = pkts[j][6:]
+                if len(body) > 1:
+                    body = body[:rng.randrange(1, len(body))]
+                    pkts[j] = pkts[j][:4] + (len(body) - 1).to_bytes(2, "big") + body
             streams.append(b"".join(pkts))
         opts = dict(parse_bad_pkts=rng.random() < 0.5, yield_unrecognized_packet_errors=rng.random() < 0.7)
         before = snapshot(d)
@@ -137,13 +145,16 @@ def extra(rng, tier):
         def solo(s, root):
             # the reference run uses a definition object of its own: nothing can leak into it
             dref = docs.definition_py(doc)
+            out = []
             with warnings.catch_warnings():
                 warnings.simplefilter("ignore")
-                return [genrun.item_out(x, set()) for x in itertools.islice(dref.packet_generator(io.BytesIO(s), root_container_name=root, **opts), 50)]
-        try:
-            solos = [solo(s, r) for s, r in zip(streams, roots)]
-        except Exception:  # noqa: BLE001   (a fatal decoding error: not a C11 input)
-            continue
+                try:
+                    for x in itertools.islice(dref.packet_generator(io.BytesIO(s), root_container_name=root, **opts), 50):
+                        out.append(genrun.item_out(x, set()))
+                except Exception as e:  # noqa: BLE001  (a fatal decoding error ends this generator, here and in the shared run alike)
+                    out.append(["raised", type(e).__name__])
+            return out
+        solos = [solo(s, r) for s, r in zip(streams, roots)]
         gens = [d.packet_generator(io.BytesIO(s), root_container_name=r, **opts) for s, r in zip(streams, roots)]
         got = [[] for _ in streams]
         alive = list(range(len(streams)))
@@ -160,6 +171,18 @@ def extra(rng, tier):
                 except Exception as e:  # noqa: BLE001  (the solo run did not raise: this is a difference)
                     got[i].append(["raised", type(e).__name__])
                     alive.remove(i)
+        # ... and a generator made from the same definition after all that behaves like one on a fresh definition
+        if streams:
+            late = []
+            with warnings.catch_warnings():
+                warnings.simplefilter("ignore")
+                try:
+                    for x in itertools.islice(d.packet_generator(io.BytesIO(streams[0]), root_container_name=roots[0], **opts), 50):
+                        late.append(genrun.item_out(x, set()))
+                except Exception as e:  # noqa: BLE001
+                    late.append(["raised", type(e).__name__])
+            got.append(late)
+            solos.append(solo(streams[0], roots[0]))
         res["evaluations"] += 1
         res["interleavings"] += 1
         after = snapshot(d)
